@@ -45,6 +45,7 @@ class C19(Check):
     quick_examples = 2000
     thorough_examples = 20000
     rule = (
+        "[drawn in addition since rounds 13-15: strict on / off; LoggingTracer subclass configured last; two LoggingTracers; sync BaseException outcome over KeyboardInterrupt / SystemExit / GeneratorExit] "
         "cases: per-attempt outcome words over {response ok, response with listed / unlisted error code, listed / unlisted transport exception, "
         "body that is not JSON, body that is not a response (object / scalar), identity mismatch, BaseException (harness BaseException subclass; "
         "asyncio.CancelledError on the async side)} - all words of length n+1 for retry strategies of n = 0..2 attempts (enumerated, both tiers; "
